@@ -507,7 +507,7 @@ impl Gen {
         let have_two = self.nodes.len() >= 2;
         let have_r = !self.rels.is_empty();
         loop {
-            let c = rng.usize(27);
+            let c = rng.usize(31);
             let q = match c {
                 0 => {
                     let n = self.node(rng, "n");
@@ -645,11 +645,71 @@ impl Gen {
                     return Rq::OtherGraph(fe);
                 }
                 26 if have_n && rng.chance(1, 2) => return Rq::Restart,
+                // --- the durable image must be the FINAL state: one entity returned by several
+                //     rows while a per-row SET changes it
+                27 if have_n => {
+                    let k = *rng.pick(&self.nodes);
+                    let (a, b, c) = (self.fresh(), self.fresh(), self.fresh());
+                    format!("UNWIND [{}, {}, {}] AS x MATCH (n {{k: {}}}) SET n.last = x{}", a, b, c, k, if ret { " RETURN n" } else { "" })
+                }
+                28 if have_n => {
+                    // …and returned twice in every row, with a label change
+                    let k = *rng.pick(&self.nodes);
+                    let (a, b) = (self.fresh(), self.fresh());
+                    format!("UNWIND [{}, {}] AS x MATCH (n {{k: {}}}) SET n.cnt = x, n:Seen RETURN n, n AS m, x", a, b, k)
+                }
+                29 if have_r => {
+                    let w = *rng.pick(&self.rels);
+                    let (a, b, c) = (self.fresh(), self.fresh(), self.fresh());
+                    format!("UNWIND [{}, {}, {}] AS x MATCH (a)-[r {{w: {}}}]->(b) SET r.last = x, a.via = x RETURN a, r, b", a, b, c, w)
+                }
+                30 if have_n => {
+                    // self-referential increment over the rows, every node hit once per row
+                    let k = *rng.pick(&self.nodes);
+                    format!("UNWIND [1, 2, 3] AS x MATCH (n {{k: {}}}) SET n.acc = n.k + x * {} RETURN n", k, self.fresh())
+                }
                 _ => continue,
             };
             return Rq::Query(fe, q);
         }
     }
+}
+
+/// "final state" histories: a hub with leaves, all stored; then statements that return the hub
+/// (and/or a relationship) once per row while changing it in every row — hub-and-leaves MATCH
+/// with a self-referential increment, UNWIND-driven SET, an entity returned twice in a row —
+/// next to entities returned once.  Every statement returns everything it changes: the
+/// history is durable (C19_partial, C19_returned_stored_final).
+fn gen_final_state(rng: &mut Rng) -> Vec<Rq> {
+    let mut k = 0i64;
+    let mut fresh = || {
+        k += 1;
+        k
+    };
+    let hub = fresh();
+    let mut h = vec![Rq::Query(Fe::Resp, format!("CREATE (h:Hub {{k: {}, visits: 0}}) RETURN h", hub))];
+    let n_leaves = 2 + rng.usize(3);
+    let mut ws = vec![];
+    for _ in 0..n_leaves {
+        let (w, l) = (fresh(), fresh());
+        ws.push(w);
+        h.push(Rq::Query(Fe::Resp, format!("MATCH (h:Hub {{k: {}}}) CREATE (h)-[r:LINK {{w: {}}}]->(l:Leaf {{k: {}, seen: false}}) RETURN r, l", hub, w, l)));
+    }
+    if rng.chance(1, 3) {
+        h.push(Rq::Restart);
+    }
+    for _ in 0..1 + rng.usize(3) {
+        let q = match rng.usize(6) {
+            0 => format!("MATCH (h:Hub {{k: {}}})-[:LINK]->(l:Leaf) SET h.visits = h.visits + 1, l.seen = true RETURN h, l", hub),
+            1 => format!("UNWIND [10, 20, 30] AS x MATCH (h:Hub)-[r:LINK {{w: {}}}]->(l:Leaf) SET r.last = x RETURN h, r, l", rng.pick(&ws)),
+            2 => format!("MATCH (h:Hub {{k: {}}})-[r:LINK]->(l:Leaf) SET h.visits = h.visits + 1, r.hops = h.visits, h:Busy RETURN h, r, h AS again", hub),
+            3 => format!("UNWIND [1, 2] AS x MATCH (h:Hub {{k: {}}}) SET h.visits = h.visits + x RETURN h, h AS m", hub),
+            4 => format!("MATCH (h:Hub {{k: {}}})-[:LINK]->(l:Leaf) SET h.tally = l.k, l.rank = h.visits RETURN l, h", hub),
+            _ => format!("UNWIND [5, 6, 7] AS x MATCH (h:Hub {{k: {}}})-[r:LINK]->(l:Leaf) SET r.pass = x, l.pass = x, h.visits = h.visits + 1 RETURN h, r, l", hub),
+        };
+        h.push(Rq::Query(Fe::Resp, q));
+    }
+    h
 }
 
 /// histories in which every statement is a RESP CREATE that returns every entity it creates
@@ -738,10 +798,13 @@ fn main() {
     }
     rep.count_n("corpus_histories", hists.len() as u64);
     if args.replay.is_none() {
-        let (n_part, n_rand) = if args.thorough() { (60, 240) } else { (8, 26) };
+        let (n_part, n_final, n_rand) = if args.thorough() { (50, 50, 220) } else { (4, 4, 14) };
         for _ in 0..n_part {
             let len = 1 + rng.usize(6);
             hists.push(("partial".into(), gen_partial(&mut rng, len)));
+        }
+        for _ in 0..n_final {
+            hists.push(("partial".into(), gen_final_state(&mut rng)));
         }
         for _ in 0..n_rand {
             let mut g = Gen { next_k: 0, nodes: vec![], rels: vec![] };
